@@ -142,6 +142,157 @@ impl Check for GenCheck {
     }
 }
 
+/// Fault / cancellation enumeration over generated base programs: the base program is executed
+/// once to learn how many transport calls each connection sees (or how many steps it has), then
+/// re-executed once per injection point. Every re-execution is judged by the monitor.
+pub struct SweepCheck {
+    pub id: &'static str,
+    pub level: &'static str,
+    pub rule: &'static str,
+    pub assumptions: Vec<&'static str>,
+    pub workloads: Vec<(&'static str, u64, u64, ProfileFn)>,
+    pub monitor: MonitorFn,
+    pub max_steps: usize,
+    pub epilogue_polls: usize,
+    /// maximum number of injection points per base program (quick, thorough)
+    pub cap: (usize, usize),
+    pub mode: SweepMode,
+    pub min_nt: (usize, usize),
+    pub required: Vec<&'static str>,
+}
+
+#[derive(Clone, Copy, PartialEq)]
+pub enum SweepMode {
+    /// a transport fault at every I/O call index of every connection
+    Faults,
+    /// cancellation of every step at every Pending index (transport pends before every call)
+    Cancels,
+    /// both, alternating
+    Both,
+}
+
+const FAULT_MENU: [FaultKind; 6] = [
+    FaultKind::Error(ErrKind::ConnectionReset),
+    FaultKind::Eof,
+    FaultKind::Error(ErrKind::TimedOut),
+    FaultKind::Error(ErrKind::BrokenPipe),
+    FaultKind::Error(ErrKind::Interrupted),
+    FaultKind::Error(ErrKind::Other),
+];
+
+impl SweepCheck {
+    fn exec(&self, profile: &Profile, rng: &Rng, seed: u64, ff: Option<(usize, FaultPlan)>, fc: Option<(usize, usize)>) -> (RunLog, crate::world::Shared) {
+        let mut rng = rng.clone();
+        let cfg = gen_cfg(&mut rng, profile);
+        let hostile = profile.hostile_broker;
+        let mut g = Gen::new(rng.next(), profile.clone());
+        g.steps_left = self.max_steps;
+        g.forced_fault = ff;
+        g.forced_cancel = fc;
+        if self.epilogue_polls > 0 {
+            let mut d = WithEpilogue::new(g, self.epilogue_polls);
+            let (mut log, world) = run_case(&cfg, seed, &mut d, self.max_steps + self.epilogue_polls + 16);
+            log.epilogue = true;
+            log.epilogue_from = d.from_step;
+            log.hostile = hostile;
+            (log, world)
+        } else {
+            let (mut log, world) = run_case(&cfg, seed, &mut g, self.max_steps + 8);
+            log.hostile = hostile;
+            (log, world)
+        }
+    }
+}
+
+impl Check for SweepCheck {
+    fn id(&self) -> &'static str {
+        self.id
+    }
+    fn level(&self) -> &'static str {
+        self.level
+    }
+    fn rule(&self) -> String {
+        self.rule.to_string()
+    }
+    fn assumptions(&self) -> Vec<String> {
+        self.assumptions.iter().map(|s| s.to_string()).collect()
+    }
+    fn workloads(&self) -> Vec<Workload> {
+        self.workloads.iter().map(|(n, q, t, _)| Workload { name: n, quick: *q, thorough: *t }).collect()
+    }
+    fn min_nontrivial(&self, tier: Tier) -> usize {
+        if tier == Tier::Quick { self.min_nt.0 } else { self.min_nt.1 }
+    }
+    fn required_counters(&self) -> Vec<&'static str> {
+        self.required.clone()
+    }
+    fn run(&self, workload: usize, seed: u64, _index: u64, tier: Tier, verbose: bool) -> CaseOut {
+        let mut rng0 = Rng::new(seed);
+        let mut profile = (self.workloads[workload].3)(&mut rng0);
+        profile.conn_fault_pct = 0;
+        profile.w_fault = 0;
+        if self.mode != SweepMode::Faults {
+            profile.all_pend = true;
+            profile.cancel_pct = 0;
+            profile.connect_cancel_pct = 0;
+        }
+        let mut out = CaseOut::default();
+        // base run
+        let (blog, bworld) = self.exec(&profile, &rng0, seed, None, None);
+        let mut points: Vec<(Option<(usize, FaultPlan)>, Option<(usize, usize)>)> = Vec::new();
+        {
+            let bw = bworld.borrow();
+            if self.mode != SweepMode::Cancels {
+                let mut k = 0usize;
+                for c in &bw.conns {
+                    for i in 0..=c.n_io {
+                        let kind = FAULT_MENU[k % FAULT_MENU.len()];
+                        k += 1;
+                        points.push((Some((c.idx, FaultPlan { at: FaultAt::Io(i), kind })), None));
+                    }
+                }
+            }
+            if self.mode != SweepMode::Faults {
+                for op in &blog.ops {
+                    for j in 1..=op.pendings.min(40) {
+                        points.push((None, Some((op.step, j))));
+                    }
+                }
+            }
+        }
+        let cap = if tier == Tier::Quick { self.cap.0 } else { self.cap.1 };
+        if points.len() > cap {
+            let mut r = Rng::new(seed ^ 0x5eed);
+            r.shuffle(&mut points);
+            points.truncate(cap);
+        }
+        out.count("base_programs", 1);
+        out.count("injection_points", points.len() as u64);
+        let mut shown = false;
+        for (ff, fc) in points {
+            let (log, world) = self.exec(&profile, &rng0, seed, ff, fc);
+            let w = world.borrow();
+            let t = Trace::new(&log, &w);
+            let before = out.violations.len();
+            let nt = (self.monitor)(&t, &mut out);
+            if let Some((c, f)) = &ff {
+                let _ = c;
+                out.key(format!("fault-kind/{:?}", f.kind));
+            }
+            let show = verbose && !shown && out.violations.len() > before;
+            if show {
+                shown = true;
+                println!("--- injection point fault={:?} cancel={:?}", ff, fc);
+            }
+            finish_case(self.id, &log, &w, &mut out, nt, show);
+        }
+        if verbose && !shown {
+            println!("(no violation in any of the injection points of this base program)");
+        }
+        out
+    }
+}
+
 fn general(_r: &mut Rng) -> Profile {
     Profile::default()
 }
@@ -264,6 +415,62 @@ fn inbound_hostile(r: &mut Rng) -> Profile {
     p
 }
 
+fn dead_handle(r: &mut Rng) -> Profile {
+    let mut p = Profile::default();
+    p.name = "dead-handle";
+    p.w_pub = [6, 6, 6];
+    p.w_sub = 6;
+    p.w_unsub = 6;
+    p.w_poll = 10;
+    p.w_recv = 6;
+    p.w_drive = 8;
+    p.w_disconnect = 5;
+    p.w_drop = 1;
+    p.w_forget = 0;
+    p.w_into_inner = 0;
+    p.w_bclose = 2;
+    p.w_bdisc = 2;
+    p.w_braw = 2;
+    p.w_bpublish = 6;
+    p.dead_ops_max = 8;
+    p.bad_connack_pct = 3;
+    p.max_conns = 3;
+    p.cancel_pct = *r.pick(&[0u32, 10]);
+    p.keepalive_choices = vec![0, 0, 2, 10];
+    p.ska_choices = vec![None, None, Some(1)];
+    p.ping_modes = vec![AckMode::Immediate, AckMode::Never];
+    p.poll_waits = vec![0, 1_000_000, 20_000_000, 100_000_000];
+    p
+}
+
+fn mps_edges(r: &mut Rng) -> Profile {
+    let mut p = Profile::default();
+    p.name = "mps-edges";
+    let mut mps: Vec<Option<u32>> = (2..=64).map(Some).collect();
+    mps.extend([Some(127), Some(128), Some(129), None]);
+    p.mps_choices = mps;
+    p.near_mps = true;
+    p.inbound_near_rx = r.chance(1, 2);
+    p.rx_choices = vec![24, 32, 48, 64, 128, 256];
+    p.tx_choices = vec![128, 256, 1024];
+    p.w_pub = [10, 10, 10];
+    p.w_sub = 6;
+    p.w_unsub = 6;
+    p.w_disconnect = 4;
+    p.w_bpublish = 14;
+    p.w_bpubrel = 4;
+    p.topic_max = 6;
+    p.props_pct = 15;
+    p.sp_w = [3, 6, 2];
+    p.fail_pcts = vec![0, 30];
+    p.longform_pcts = vec![0, 100];
+    p.bad_connack_pct = 3;
+    p.conn_fault_pct = 10;
+    p.max_conns = 5;
+    p.extra_connack_props_pct = 0;
+    p
+}
+
 macro_rules! gen_check {
     ($id:expr, $level:expr, $rule:expr, $assume:expr, $wl:expr, $mon:expr, $steps:expr, $epi:expr, $min:expr, $req:expr) => {
         Box::new(GenCheck {
@@ -335,6 +542,25 @@ pub fn all() -> Vec<Box<dyn Check>> {
         COMMON_ASSUME.to_vec(),
         vec![("replay-heavy", 3000, 300_000, replay_heavy as ProfileFn), ("general", 3000, 300_000, general)],
         m::c07::check, 70, 0, (200, 2000), vec!["allocations_with_ids_in_use"]),
+    Box::new(SweepCheck {
+        id: "C11",
+        level: "fault_enumeration",
+        rule: "for generated base programs covering every operation kind with queued work, a transport fault (ConnectionReset, EOF, TimedOut, BrokenPipe, Interrupted, Other) is injected at every I/O call index of every connection (one re-execution per index); broker DISCONNECT / stream close / garbage and graceful disconnect come from the programs themselves; after the first latching result on a handle every further operation must fail fast without any read/write/flush. Non-trivial iff a latch was observed; distinct keys = (operation, await index, fault kind) triples.",
+        assumptions: COMMON_ASSUME.to_vec(),
+        workloads: vec![("dead-handle", 300, 30_000, dead_handle as ProfileFn), ("general", 100, 10_000, general)],
+        monitor: m::c11::check,
+        max_steps: 40,
+        epilogue_polls: 0,
+        cap: (40, 400),
+        mode: SweepMode::Faults,
+        min_nt: (200, 2000),
+        required: vec!["latches_observed", "ops_after_latch", "probes_after_latch"],
+    }),
+    gen_check!("C14", "exploration",
+        "programs against brokers announcing Maximum Packet Size in {2..64,127,128,129,absent} with requests sized so that the encoded packet lands within +-3 bytes of the limit (publish at every QoS, subscribe, unsubscribe, disconnect), owed acknowledgements in 4- and 5-byte forms, retained packets replayed under a smaller limit, receive buffers 24..256 bytes with inbound packets of rx-2..rx+2 bytes. Non-trivial iff a packet within +-3 bytes of the limit was sent, a request was refused as too large, a mandatory packet did not fit or an oversize inbound packet arrived.",
+        COMMON_ASSUME.to_vec(),
+        vec![("mps-edges", 5000, 500_000, mps_edges as ProfileFn), ("general", 1000, 100_000, general)],
+        m::c14::check, 70, 0, (200, 2000), vec!["too_large_refusals", "mandatory_packet_did_not_fit", "oversize_inbound_rejected"]),
     gen_check!("C18", "exploration",
         "status of every operation handle is queried after every step and compared with a reference model (pending until the final ack was consumed in the issuing session, invalidated once a fresh-session CONNACK was consumed); failure codes must surface as Rejected from the consuming call. Non-trivial iff a status transition was observed.",
         COMMON_ASSUME.to_vec(),
